@@ -338,4 +338,499 @@ theorem fileName_none {U : Char → Bool} {lower : Str → Str} {name pre suf : 
       have := h i (by omega)
       rwa [candidate_pos _ _ _ _ (by omega)] at this
 
+/-! ## the trailing-run replacement -/
+
+theorem mem_takeWhile_true {α} (p : α → Bool) (l : List α) : ∀ x ∈ l.takeWhile p, p x = true := by
+  induction l with
+  | nil => simp
+  | cons a l ih =>
+    intro x hx
+    rw [List.takeWhile_cons] at hx
+    split at hx
+    · rcases List.mem_cons.1 hx with h | h
+      · subst h; assumption
+      · exact ih x h
+    · cases hx
+
+theorem fixTrailing_decomp (s : Str) :
+    ∃ a d, s = a ++ d ∧ (∀ c ∈ d, isDotSp c = true) ∧ (∀ x, a.getLast? = some x → isDotSp x = false) ∧
+      fixTrailing s = a ++ List.replicate d.length '_' := by
+  refine ⟨(s.reverse.dropWhile isDotSp).reverse, (s.reverse.takeWhile isDotSp).reverse, ?_, ?_, ?_, ?_⟩
+  · rw [← List.reverse_append, List.takeWhile_append_dropWhile, List.reverse_reverse]
+  · intro c hc
+    exact mem_takeWhile_true _ _ _ (List.mem_reverse.1 hc)
+  · intro x hx
+    rw [List.getLast?_reverse] at hx
+    have := List.head?_dropWhile_not isDotSp s.reverse
+    rw [hx] at this
+    simpa using this
+  · unfold fixTrailing
+    simp only [List.length_reverse]
+    congr 1
+    have h : s = (s.reverse.dropWhile isDotSp).reverse ++ (s.reverse.takeWhile isDotSp).reverse := by
+      rw [← List.reverse_append, List.takeWhile_append_dropWhile, List.reverse_reverse]
+    have hl : s.length - (s.reverse.takeWhile isDotSp).length = (s.reverse.dropWhile isDotSp).reverse.length := by
+      have := congrArg List.length h
+      simp only [List.length_append, List.length_reverse] at this ⊢
+      omega
+    rw [hl]
+    conv => lhs; arg 2; rw [h]
+    exact List.take_left' rfl
+
+theorem dotsp_size {c : Char} (h : isDotSp c = true) : c.utf8Size = 1 := by
+  simp only [isDotSp, Bool.or_eq_true, beq_iff_eq] at h
+  rcases h with h | h <;> subst h <;> rfl
+
+theorem usize_dotsp {d : Str} (h : ∀ c ∈ d, isDotSp c = true) : usize d = d.length := by
+  induction d with
+  | nil => rfl
+  | cons c d ih =>
+    have h1 := dotsp_size (h c (List.mem_cons_self))
+    have h2 := ih (fun x hx => h x (List.mem_cons_of_mem _ hx))
+    simp [h1, h2]; omega
+
+theorem fixTrailing_length (s : Str) : (fixTrailing s).length = s.length := by
+  obtain ⟨a, d, hs, _, _, hf⟩ := fixTrailing_decomp s
+  rw [hf]; conv => rhs; rw [hs]
+  simp
+
+theorem fixTrailing_usize (s : Str) : usize (fixTrailing s) = usize s := by
+  obtain ⟨a, d, hs, hd, _, hf⟩ := fixTrailing_decomp s
+  rw [hf]; conv => rhs; rw [hs]
+  simp [usize_dotsp hd, usize_replicate_ascii d.length '_' rfl]
+
+theorem fixTrailing_mem {s : Str} {c : Char} (h : c ∈ fixTrailing s) : c ∈ s ∨ c = '_' := by
+  obtain ⟨a, d, hs, _, _, hf⟩ := fixTrailing_decomp s
+  rw [hf] at h
+  rcases List.mem_append.1 h with h | h
+  · left; rw [hs]; exact List.mem_append_left _ h
+  · right; exact (List.mem_replicate.1 h).2
+
+theorem fixTrailing_last (s : Str) : ∀ x, (fixTrailing s).getLast? = some x → isDotSp x = false := by
+  obtain ⟨a, d, hs, _, ha, hf⟩ := fixTrailing_decomp s
+  intro x hx
+  rw [hf] at hx
+  cases hd : d with
+  | nil => rw [hd] at hx; simp at hx; exact ha x hx
+  | cons y ys =>
+    rw [hd] at hx
+    simp only [List.length_cons, List.replicate_succ'] at hx
+    rw [← List.append_assoc, List.getLast?_concat] at hx
+    injection hx with hx; subst hx; rfl
+
+theorem fixTrailing_head (s : Str) : ∀ x, (fixTrailing s).head? = some x → x = '_' ∨ s.head? = some x := by
+  obtain ⟨a, d, hs, _, _, hf⟩ := fixTrailing_decomp s
+  intro x hx
+  rw [hf] at hx
+  cases a with
+  | nil =>
+    left
+    cases hd : d.length with
+    | zero => rw [hd] at hx; simp at hx
+    | succ n => rw [hd] at hx; simp [List.replicate_succ] at hx; exact hx.symm
+  | cons y ys =>
+    right; rw [hs]; simpa using hx
+
+/-- a prefix whose last character is neither period nor space survives the replacement -/
+theorem fixTrailing_keeps_prefix {p s : Str} {g : Char} (hp : p ++ [g] <+: s) (hg : isDotSp g = false) :
+    p ++ [g] <+: fixTrailing s := by
+  obtain ⟨a, d, hs, hd, _, hf⟩ := fixTrailing_decomp s
+  rw [hf]
+  have ha : a <+: s := by rw [hs]; exact List.prefix_append _ _
+  rcases List.prefix_or_prefix_of_prefix hp ha with h | h
+  · exact h.trans (List.prefix_append _ _)
+  · -- a <+: p ++ [g]: then g would be one of the periods/spaces
+    obtain ⟨t, ht⟩ := h
+    obtain ⟨u, hu⟩ := hp
+    have hd' : d = t ++ u := by
+      have : a ++ (t ++ u) = a ++ d := by rw [← List.append_assoc, ht, hu, hs]
+      exact (List.append_cancel_left this).symm
+    cases ht' : t.getLast? with
+    | none =>
+      have : t = [] := List.getLast?_eq_none_iff.1 ht'
+      subst this
+      simp at ht
+      rw [← ht]; exact List.prefix_append _ _
+    | some z =>
+      have hz : (p ++ [g]).getLast? = some z := by
+        rw [← ht]; rw [List.getLast?_append, ht']; rfl
+      rw [List.getLast?_concat] at hz
+      injection hz with hz; subst hz
+      have : g ∈ d := by
+        rw [hd']; exact List.mem_append_left _ (List.mem_of_getLast? ht')
+      rw [hd g this] at hg; cases hg
+
+/-! ## portable characters -/
+
+open Spec
+
+abbrev Good (c : Char) : Prop := goodChar c = true
+
+theorem illegal_iff (c : Char) : c ∈ illegal ↔ illegalChars.contains c = true := by
+  simp only [illegal, illegalChars, List.contains_eq_mem, List.mem_cons, List.not_mem_nil, or_false,
+    decide_eq_true_eq]
+  grind
+
+theorem good_underscore : Good '_' := by decide
+
+theorem good_of_name {c : Char} (h1 : c ∉ illegal) (h2 : isControl c = false) : Good c := by
+  unfold Good goodChar
+  rw [h2]
+  have : illegalChars.contains c = false := by
+    cases h : illegalChars.contains c with
+    | false => rfl
+    | true => exact absurd ((illegal_iff c).2 h) h1
+  rw [this]; rfl
+
+theorem escChar_good {U : Char → Bool} {b : Bool} {c : Char} (hc : isControl c = false) :
+    ∀ x ∈ escChar U b c, Good x := by
+  intro x hx
+  unfold escChar at hx
+  split at hx
+  · simp at hx; subst hx; exact good_underscore
+  · split at hx
+    · simp at hx; subst hx; exact good_underscore
+    · rename_i hill
+      split at hx
+      · simp at hx; rcases hx with h | h <;> subst h
+        · exact good_of_name hill hc
+        · exact good_underscore
+      · simp at hx; subst hx; exact good_of_name hill hc
+
+theorem escape_good {U : Char → Bool} {b : Bool} {name : Str}
+    (h : ∀ c ∈ name, isControl c = false) : ∀ x ∈ escape U b name, Good x := by
+  induction name generalizing b with
+  | nil => intro x hx; simp [escape] at hx
+  | cons c cs ih =>
+    intro x hx
+    unfold escape at hx
+    rcases List.mem_append.1 hx with hx | hx
+    · exact escChar_good (h c List.mem_cons_self) x hx
+    · exact ih (fun y hy => h y (List.mem_cons_of_mem _ hy)) x hx
+
+theorem insertReserved_mem {r : Str} {c : Char} (h : c ∈ insertReserved r) : c = '_' ∨ c ∈ r := by
+  unfold insertReserved at h
+  split at h
+  · rcases List.mem_cons.1 h with h | h
+    · exact Or.inl h
+    · exact Or.inr h
+  · exact Or.inr h
+
+theorem digit_mem (n : Nat) : digit n ∈ ['0', '1', '2', '3', '4', '5', '6', '7', '8', '9'] := by
+  unfold digit; split <;> simp
+
+theorem digit_good (n : Nat) : Good (digit n) := by
+  have := digit_mem n
+  simp only [List.mem_cons, List.not_mem_nil, or_false] at this
+  rcases this with h | h | h | h | h | h | h | h | h | h <;> rw [h] <;> decide
+
+theorem digit_not_dotsp (n : Nat) : isDotSp (digit n) = false := by
+  have := digit_mem n
+  simp only [List.mem_cons, List.not_mem_nil, or_false] at this
+  rcases this with h | h | h | h | h | h | h | h | h | h <;> rw [h] <;> decide
+
+theorem twoDigits_good (k : Nat) : ∀ c ∈ twoDigits k, Good c := by
+  intro c hc
+  simp only [twoDigits, List.mem_cons, List.not_mem_nil, or_false] at hc
+  rcases hc with h | h <;> subst h <;> exact digit_good _
+
+/-! ## structure of the candidates -/
+
+/-- prefix + escaped name after the reserved-word test -/
+def stage1 (U : Char → Bool) (name pre : Str) : Str := insertReserved (pre ++ escape U pre.isEmpty name)
+
+/-- … after clipping -/
+def stage2 (U : Char → Bool) (name pre suf : Str) : Str :=
+  if usize (stage1 U name pre) + usize suf > maxLen then takeBytes (maxLen - usize suf) (stage1 U name pre)
+  else stage1 U name pre
+
+theorem body_eq (U : Char → Bool) (name pre suf : Str) :
+    body U name pre suf = if suf.isEmpty then fixTrailing (stage2 U name pre suf) else stage2 U name pre suf := rfl
+
+theorem stage2_prefix (U : Char → Bool) (name pre suf : Str) : stage2 U name pre suf <+: stage1 U name pre := by
+  unfold stage2; split
+  · exact takeBytes_prefix _ _
+  · exact List.prefix_refl _
+
+theorem stage2_usize (U : Char → Bool) (name pre suf : Str) :
+    usize (stage2 U name pre suf) + usize suf ≤ maxLen ∨ maxLen < usize suf := by
+  unfold stage2; split
+  · have := usize_takeBytes_le (maxLen - usize suf) (stage1 U name pre)
+    omega
+  · omega
+
+theorem body_usize (U : Char → Bool) (name pre suf : Str) :
+    usize (body U name pre suf) = usize (stage2 U name pre suf) := by
+  rw [body_eq]; split
+  · exact fixTrailing_usize _
+  · rfl
+
+theorem counterBase_prefix (U : Char → Bool) (name pre suf : Str) :
+    counterBase U name pre suf <+: body U name pre suf := by
+  unfold counterBase; simp only; split
+  · exact takeBytes_prefix _ _
+  · exact List.prefix_refl _
+
+theorem stage1_mem {U : Char → Bool} {name pre : Str} {c : Char} (h : c ∈ stage1 U name pre) :
+    c = '_' ∨ c ∈ pre ∨ c ∈ escape U pre.isEmpty name := by
+  rcases insertReserved_mem h with h | h
+  · exact Or.inl h
+  · exact Or.inr (List.mem_append.1 h)
+
+theorem body_mem {U : Char → Bool} {name pre suf : Str} {c : Char} (h : c ∈ body U name pre suf) :
+    c = '_' ∨ c ∈ pre ∨ c ∈ escape U pre.isEmpty name := by
+  rw [body_eq] at h
+  have key : ∀ c, c ∈ stage2 U name pre suf → c = '_' ∨ c ∈ pre ∨ c ∈ escape U pre.isEmpty name :=
+    fun c hc => stage1_mem ((stage2_prefix U name pre suf).subset hc)
+  split at h
+  · rcases fixTrailing_mem h with h | h
+    · exact key c h
+    · exact Or.inl h
+  · exact key c h
+
+theorem candidate_mem {U : Char → Bool} {name pre suf : Str} {k : Nat} {c : Char}
+    (h : c ∈ candidate U name pre suf k) : c ∈ body U name pre suf ∨ c ∈ twoDigits k ∨ c ∈ suf := by
+  unfold candidate candidateFrom at h
+  split at h
+  · rcases List.mem_append.1 h with h | h
+    · exact Or.inl h
+    · exact Or.inr (Or.inr h)
+  · rcases List.mem_append.1 h with h | h
+    · rcases List.mem_append.1 h with h | h
+      · exact Or.inl ((counterBase_prefix U name pre suf).subset h)
+      · exact Or.inr (Or.inl h)
+    · exact Or.inr (Or.inr h)
+
+theorem candidate_good {U : Char → Bool} {name pre suf : Str} {k : Nat}
+    (hn : ∀ c ∈ name, isControl c = false) (hp : ∀ c ∈ pre, Good c) (hs : ∀ c ∈ suf, Good c) :
+    ∀ c ∈ candidate U name pre suf k, Good c := by
+  intro c hc
+  rcases candidate_mem hc with h | h | h
+  · rcases body_mem h with h | h | h
+    · subst h; exact good_underscore
+    · exact hp c h
+    · exact escape_good hn c h
+  · exact twoDigits_good k c h
+  · exact hs c h
+
+/-! ## length -/
+
+theorem twoDigits_usize (k : Nat) : usize (twoDigits k) = 2 := by
+  have h : ∀ n, (digit n).utf8Size = 1 := by
+    intro n
+    have := digit_mem n
+    simp only [List.mem_cons, List.not_mem_nil, or_false] at this
+    rcases this with h | h | h | h | h | h | h | h | h | h <;> rw [h] <;> rfl
+  simp [twoDigits, h]
+
+theorem candidate_zero_len {U : Char → Bool} {name pre suf : Str} (hs : usize suf ≤ maxLen) :
+    usize (candidate U name pre suf 0) ≤ maxLen := by
+  rw [candidate_zero, usize_append, body_usize]
+  have := stage2_usize U name pre suf
+  omega
+
+theorem counterBase_usize (U : Char → Bool) (name pre suf : Str) :
+    usize (counterBase U name pre suf) ≤ usize (body U name pre suf) ∧
+    (usize (body U name pre suf) + numberLen > maxLen →
+      usize (counterBase U name pre suf) ≤ maxLen - usize suf - numberLen) := by
+  refine ⟨usize_prefix_le (counterBase_prefix U name pre suf), fun h => ?_⟩
+  unfold counterBase; simp only; rw [if_pos h]
+  exact usize_takeBytes_le _ _
+
+theorem candidate_len {U : Char → Bool} {name pre suf : Str} {k : Nat} (hs : usize suf ≤ maxLen) :
+    usize (candidate U name pre suf k) ≤ maxLen + 2 ∧
+    (suf = [] → usize (candidate U name pre suf k) ≤ maxLen) := by
+  by_cases hk : k = 0
+  · subst hk
+    have := candidate_zero_len (U := U) (name := name) (pre := pre) hs
+    exact ⟨by omega, fun _ => this⟩
+  · rw [candidate_pos _ _ _ _ (by omega)]
+    simp only [usize_append, twoDigits_usize]
+    have h1 := counterBase_usize U name pre suf
+    have h2 := stage2_usize U name pre suf
+    have h3 := body_usize U name pre suf
+    simp only [maxLen, numberLen] at *
+    constructor
+    · omega
+    · intro he; subst he; simp only [usize_nil] at *
+      by_cases hb : usize (body U name pre []) + 2 > 255
+      · have := h1.2 hb; omega
+      · omega
+
+/-! ## last character -/
+
+theorem candidate_suffix (U : Char → Bool) (name pre suf : Str) (k : Nat) :
+    suf <:+ candidate U name pre suf k := by
+  unfold candidate candidateFrom; split <;> exact List.suffix_append _ _
+
+theorem getLast?_two (t : Str) (a b : Char) : (t ++ [a, b]).getLast? = some b := by
+  simp [List.getLast?_append]
+
+theorem candidate_last {U : Char → Bool} {name pre suf : Str} {k : Nat}
+    (hs : ∀ x, suf.getLast? = some x → isDotSp x = false) :
+    ∀ x, (candidate U name pre suf k).getLast? = some x → isDotSp x = false := by
+  intro x hx
+  cases hsuf : suf with
+  | cons y ys =>
+    have : (candidate U name pre suf k).getLast? = suf.getLast? := by
+      obtain ⟨t, ht⟩ := candidate_suffix U name pre suf k
+      rw [← ht, hsuf, List.getLast?_append]
+      cases h : (y :: ys).getLast? with
+      | none => simp at h
+      | some z => rfl
+    rw [this] at hx; exact hs x hx
+  | nil =>
+    subst hsuf
+    by_cases hk : k = 0
+    · subst hk
+      rw [candidate_zero, List.append_nil, body_eq] at hx
+      simp only [List.isEmpty_nil, if_true] at hx
+      exact fixTrailing_last _ x hx
+    · rw [candidate_pos _ _ _ _ (by omega), List.append_nil] at hx
+      have : (counterBase U name pre [] ++ twoDigits k).getLast? = some (digit k) :=
+        getLast?_two _ _ _
+      rw [this] at hx
+      have hx' := Option.some.inj hx
+      rw [← hx']; exact digit_not_dotsp k
+
+/-! ## first character, non-emptiness -/
+
+theorem escChar_head (U : Char → Bool) (c : Char) :
+    ∃ x t, escChar U true c = x :: t ∧ x ≠ '.' := by
+  unfold escChar
+  split
+  · exact ⟨'_', [], rfl, by decide⟩
+  · rename_i h1
+    have hc : c ≠ '.' := fun h => h1 ⟨h, rfl⟩
+    split
+    · exact ⟨'_', [], rfl, by decide⟩
+    · split
+      · exact ⟨c, ['_'], rfl, hc⟩
+      · exact ⟨c, [], rfl, hc⟩
+
+/-- the first escaped character when it is neither period nor space: still neither -/
+theorem escChar_head_nodotsp (U : Char → Bool) (b : Bool) {c : Char} (hc : isDotSp c = false) :
+    ∃ x t, escChar U b c = x :: t ∧ isDotSp x = false ∧ x.utf8Size ≤ 4 := by
+  unfold escChar
+  split
+  · exact ⟨'_', [], rfl, by decide, by decide⟩
+  · split
+    · exact ⟨'_', [], rfl, by decide, by decide⟩
+    · split
+      · exact ⟨c, ['_'], rfl, hc, csize_le4 c⟩
+      · exact ⟨c, [], rfl, hc, csize_le4 c⟩
+
+theorem insertReserved_head {r : Str} {x : Char} (h : r.head? = some x) (hx : x ≠ '.') :
+    ∃ y, (insertReserved r).head? = some y ∧ y ≠ '.' := by
+  unfold insertReserved; split
+  · exact ⟨'_', rfl, by decide⟩
+  · exact ⟨x, h, hx⟩
+
+theorem stage2_head {U : Char → Bool} {name pre suf : Str} (h : usize suf + 4 ≤ maxLen) :
+    (stage2 U name pre suf).head? = (stage1 U name pre).head? := by
+  unfold stage2; split
+  · exact takeBytes_head (by omega)
+  · rfl
+
+theorem counterBase_head {U : Char → Bool} {name pre suf : Str} (h : usize suf + 6 ≤ maxLen) :
+    (counterBase U name pre suf).head? = (body U name pre suf).head? := by
+  unfold counterBase; simp only; split
+  · exact takeBytes_head (by simp only [maxLen, numberLen] at *; omega)
+  · rfl
+
+theorem candidate_head_of_body {U : Char → Bool} {name pre suf : Str} {k : Nat} {x : Char}
+    (h : usize suf + 6 ≤ maxLen) (hb : (body U name pre suf).head? = some x) :
+    (candidate U name pre suf k).head? = some x := by
+  by_cases hk : k = 0
+  · subst hk; rw [candidate_zero]
+    cases hbb : body U name pre suf with
+    | nil => rw [hbb] at hb; cases hb
+    | cons y ys => rw [hbb] at hb; simpa using hb
+  · rw [candidate_pos _ _ _ _ (by omega)]
+    have := counterBase_head (U := U) (name := name) (pre := pre) h
+    rw [hb] at this
+    cases hbb : counterBase U name pre suf with
+    | nil => rw [hbb] at this; cases this
+    | cons y ys => rw [hbb] at this; simpa using this
+
+theorem glif_head {U : Char → Bool} {name : Str} (hn : name ≠ []) (k : Nat) :
+    ∃ x, (candidate U name [] glifSuffix k).head? = some x ∧ x ≠ '.' := by
+  cases name with
+  | nil => exact absurd rfl hn
+  | cons c cs =>
+    obtain ⟨x, t, he, hx⟩ := escChar_head U c
+    have h1 : ([] ++ escape U ([] : Str).isEmpty (c :: cs)).head? = some x := by
+      simp [escape, he]
+    obtain ⟨y, hy, hy'⟩ := insertReserved_head h1 hx
+    have h2 : (body U (c :: cs) [] glifSuffix).head? = some y := by
+      rw [body_eq]
+      have : glifSuffix.isEmpty = false := rfl
+      rw [this]
+      simp only [Bool.false_eq_true, if_false]
+      rw [stage2_head (by decide)]; exact hy
+    exact ⟨y, candidate_head_of_body (by decide) h2, hy'⟩
+
+/-! ## the layer prefix -/
+
+theorem stem_layer (t : Str) : stem (layerPrefix ++ t) = ['g', 'l', 'y', 'p', 'h', 's'] := by
+  simp [stem, layerPrefix, List.takeWhile]
+
+theorem stage1_layer (U : Char → Bool) (name : Str) :
+    stage1 U name layerPrefix = layerPrefix ++ escape U false name := by
+  unfold stage1 insertReserved
+  rw [stem_layer, if_neg (by decide)]
+  rfl
+
+theorem keeps_prefix_chain {U : Char → Bool} {name : Str} {p : Str} {g : Char} {k : Nat}
+    (h1 : p ++ [g] <+: stage1 U name layerPrefix) (hg : isDotSp g = false) (hp : usize (p ++ [g]) ≤ 253) :
+    p ++ [g] <+: candidate U name layerPrefix [] k := by
+  have h2 : p ++ [g] <+: stage2 U name layerPrefix [] := by
+    unfold stage2; split
+    · exact takeBytes_keeps_prefix h1 (by simp only [maxLen, usize_nil]; omega)
+    · exact h1
+  have h3 : p ++ [g] <+: body U name layerPrefix [] := by
+    rw [body_eq]; exact fixTrailing_keeps_prefix h2 hg
+  by_cases hk : k = 0
+  · subst hk; rw [candidate_zero]; exact h3.trans (List.prefix_append _ _)
+  · rw [candidate_pos _ _ _ _ (by omega)]
+    have h4 : p ++ [g] <+: counterBase U name layerPrefix [] := by
+      unfold counterBase; simp only; split
+      · exact takeBytes_keeps_prefix h3 (by simp only [maxLen, numberLen, usize_nil]; omega)
+      · exact h3
+    rw [List.append_assoc]
+    exact h4.trans (List.prefix_append _ _)
+
+/-- the six letters `glyphs` always survive -/
+theorem layer_glyphs (U : Char → Bool) (name : Str) (k : Nat) :
+    ['g', 'l', 'y', 'p', 'h', 's'] <+: candidate U name layerPrefix [] k := by
+  have h1 : ['g', 'l', 'y', 'p', 'h'] ++ ['s'] <+: stage1 U name layerPrefix := by
+    rw [stage1_layer]; exact ⟨'.' :: escape U false name, rfl⟩
+  exact keeps_prefix_chain (k := k) h1 (by decide) (by decide)
+
+/-- the whole prefix survives when the name starts with something else than a period or space -/
+theorem layer_prefix_kept {U : Char → Bool} {c : Char} {cs : Str} (hc : isDotSp c = false) (k : Nat) :
+    layerPrefix <+: candidate U (c :: cs) layerPrefix [] k := by
+  obtain ⟨x, t, he, hx, hx4⟩ := escChar_head_nodotsp U false hc
+  have h1 : layerPrefix ++ [x] <+: stage1 U (c :: cs) layerPrefix := by
+    rw [stage1_layer]; unfold escape; rw [he]
+    exact ⟨t ++ escape U false cs, by simp⟩
+  have h7 : usize layerPrefix = 7 := by decide
+  have := keeps_prefix_chain (k := k) h1 hx (by simp only [usize_append, usize_cons, usize_nil]; omega)
+  exact (List.prefix_append _ _).trans this
+
+/-- the two affix pairs norad itself uses (`util.rs:21-28`) -/
+def Wrapper (pre suf : Str) : Prop := (pre = [] ∧ suf = glifSuffix) ∨ (pre = layerPrefix ∧ suf = [])
+
+instance (pre suf : Str) : Decidable (Wrapper pre suf) := by unfold Wrapper; infer_instance
+
+theorem wrapper_good {pre suf : Str} (h : Wrapper pre suf) : (∀ c ∈ pre, Good c) ∧ (∀ c ∈ suf, Good c) := by
+  rcases h with ⟨h1, h2⟩ | ⟨h1, h2⟩ <;> subst h1 <;> subst h2 <;> constructor <;> decide
+
+theorem candidate_wrapper_length {U : Char → Bool} {name pre suf : Str} (h : Wrapper pre suf) (k : Nat) :
+    5 ≤ (candidate U name pre suf k).length := by
+  rcases h with ⟨h1, h2⟩ | ⟨h1, h2⟩ <;> subst h1 <;> subst h2
+  · exact (candidate_suffix U name [] glifSuffix k).length_le
+  · have := (layer_glyphs U name k).length_le
+    simp at this; omega
+
 end C07
